@@ -341,8 +341,34 @@ def xlabel (x : X) (t : Tid) : String × String :=
     | .cAcq .. => ("clock", "c.cAcq")
     | .cWait .. => ("wdone", "c.cWait")
     | .rErr _ | .fin .. => ("end", "end")
+    | .ac a =>
+      let pcn := match a.pc with
+        | .alive1 => "alive1" | .alive2 => "alive2" | .next => "next" | .sub .. => "sub" | .polled _ st _ _ =>
+          (match st with | .queued => "polled.queued" | .ok => "polled.ok" | .failed => "polled.failed" | .cancelled => "polled.cancelled")
+        | .isAl .. => (if x.env.acRaced t then "isAl.raced" else if x.env.lastAlive t then "isAl.alive" else "isAl.dead")
+        | .acq => "acq" | .rel => "rel"
+      match acPlan a (x.base.T t).script.head? (lastRes x t) x.env.callSt (x.env.lastAlive t) (x.env.acRaced t)
+          (decide (x.env.now - x.env.sticker t < x.env.thr)) ((x.env.tcalls t).getLast?.getD 0) with
+      | none => ("end", "a." ++ pcn ++ ".none")
+      | some act =>
+        match act.piece with
+        | none => ("tdone", "a." ++ pcn ++ ">poll")
+        | some op =>
+          let kind := match op with
+            | .aliveWorkers .. => "workers" | .nextIdle .. => "nextIdle" | .submitW _ _ s => s!"submit{min s 2}"
+            | .isAliveW .. => "isAlive" | .acquiredWorkers _ => "acquired"
+            | .releaseAll _ ws => (if ws.isEmpty then "releaseEmpty" else "release")
+            | .finalize _ => (match act.ctl with
+                | .fin _ .ok => "fin.ok" | .fin _ .closed => "fin.closed" | .fin _ .raised => "fin.raised"
+                | .fin _ .noWorker => "fin.noWorker" | .fin _ .disconnected => "fin.disconnected" | _ => "fin")
+            | _ => "other"
+          let sleeping := match a.pc, lastRes x t with
+            | .sub .., some (.code _) => true
+            | _, _ => false
+          (if sleeping then "sleep" else "start", "a." ++ pcn ++ ">" ++ kind)
     | .idle =>
     match x.env.prog t with
+    | .asCompleted .. :: _ => ("start", "a.start")
     | .run .. :: _ => ("start", "c.start.run")
     | .callAndWait .. :: _ => ("start", "c.start.caw")
     | .submitNB .. :: _ => ("start", "c.start.submit")
@@ -365,6 +391,7 @@ def xlabel (x : X) (t : Tid) : String × String :=
           ("start", match x.env.queue with
             | [] => "e.deliver.empty"
             | q => if x.env.callSt (q.getD (k % q.length) 0) == .cancelled then "e.deliver.cancelled" else
+              if (x.env.callSt (q.getD (k % q.length) 0)).done then "e.deliver.preset" else
               if fail then "e.deliver.fail" else
               match x.env.calls[q.getD (k % q.length) 0]? with
               | some (.hb .., _) => "e.deliver.hb" | some (.ping _, _) => "e.deliver.ping"
@@ -382,6 +409,7 @@ structure XSetup where
 def isComposite (j : Json) : Bool :=
   match j.getObjValAs? String "op" with
   | .ok "run" | .ok "call_and_wait" | .ok "submit" => true
+  | .ok "as_completed" => (j.getObjVal? "script").toOption.isSome      -- round 11: as a program (the script carries the environment's choices)
   | _ => false
 
 def parseX (j : Json) : Except String XSetup := do
@@ -409,6 +437,14 @@ def parseX (j : Json) : Except String XSetup := do
           let raises := (oj.getObjValAs? String "task").toOption == some "raise"
           let opn ← Driver.getStr oj "op"
           let wv := (getOptNat oj "w").getD 0
+          if opn == "as_completed" then
+            let tasks ← getBools oj "tasks"
+            let ign ← Driver.getBool oj "ignore"
+            let fixed ← Driver.getBool oj "fixed"
+            for pj in (← Driver.getArr oj "script").toList do
+              sc := sc ++ (← parseOp pw pj)
+            pg := pg ++ [TOp.asCompleted p tasks ign (getOptNat oj "take") fixed]
+          else
           pg := pg ++ [if opn == "run" then TOp.run p raises
                        else if opn == "submit" then TOp.submitNB p wv raises
                        else TOp.callAndWait p raises]
@@ -440,6 +476,7 @@ def ctlPool (x : X) (t : Tid) : Option Pid :=
   match x.env.ctl t with
   | .rTick p _ | .rCond p _ _ | .rAlive p _ _ | .rErr p | .rNext p _ _ | .rClockN p _ _ _ | .rSub p _ _
   | .fin p _ | .cAcq p _ | .cWait p _ _ | .sSub p _ _ => some p
+  | .ac _ => none
   | .idle => match x.env.prog t with
     | .callAndWait p _ :: _ => some p
     | .submitNB p _ _ :: _ => some p
@@ -461,6 +498,20 @@ def xstepP (pw : Pid → List Wid) (x : X) (t : Tid) : Option (X × X) :=
         match xstep? pw xp t with
         | some x' => if (x'.base.T t).script.length < (xp.base.T t).script.length then some (xp, x') else none
         | none => none
+    | none, none =>
+      -- round 11: inside `as_completed` only the pieces of `worker.submit` are supplied on demand; every other piece (and with it
+      -- the environment's choices) is the next operation of the observed script
+      match x.env.ctl t with
+      | .ac a =>
+        (match a.pc with
+         | .next | .sub .. =>
+           ((pw a.p).flatMap fun w => [Op.submitW a.p w 0, .submitW a.p w 1, .submitW a.p w 2]).findSome? fun op =>
+             let xp := pushOp x t op
+             match xstep? pw xp t with
+             | some x' => if (x'.base.T t).script.length < (xp.base.T t).script.length then some (xp, x') else none
+             | none => none
+         | _ => none)
+      | _ => none
     | _, _ => none
   -- (the piece is always supplied by the prophecy, never taken from the thread's own pending primitive operations)
   match pushed with
@@ -472,7 +523,7 @@ def xenabled (pw : Pid → List Wid) (nt : Nat) (x : X) : List Nat :=
 
 def outcJson : Outc → Json
   | .ok => "ok" | .raised => "raised" | .noWorker => "noWorker" | .notStarted => "notStarted"
-  | .disconnected => "disconnected"
+  | .disconnected => "disconnected" | .closed => "closed"
 
 def entryJson : Registry.Entry → Json
   | none => Json.str "absent"
@@ -545,7 +596,7 @@ def xkey (nw nt : Nat) (x : X) : String :=
   key nw nt x.base ++ toString (repr (
     (List.range nw).map (fun w => (e.reg w, (e.clients w).pend, (e.clients w).hb)),
     e.rl, e.now, e.calls, e.queue, (List.range nt).map (fun t => (e.mic t, e.escript t)),
-    (List.range nt).map (fun t => (e.ctl t, e.prog t, e.outs t, e.sticker t, e.tcalls t))))
+    (List.range nt).map (fun t => (e.ctl t, e.prog t, e.outs t, e.sticker t, e.tcalls t, e.lastAlive t, e.acRaced t))))
 
 /-- Breadth-first search of the product for, per program point, a shortest schedule whose last step
 is taken at that program point (model-guided coverage: the harness replays them on the real code). -/
